@@ -18,10 +18,17 @@ class XmlGenerator(TreeListener):
         self.xml = {}
 
     def exitEquation(self, tree: ast.Equation):
+        def side(node):
+            # A declaration equation (Real v = 3 * x) has the symbol itself as its
+            # left-hand side. Refer to it: its component element belongs in the class.
+            if isinstance(node, ast.Symbol):
+                return E("local", name=node.name)
+            return self.xml[node]
+
         self.xml[tree] = E(
             "equal",
-            self.xml[tree.left],
-            self.xml[tree.right],
+            side(tree.left),
+            side(tree.right),
         )
 
     def exitExpression(self, tree: ast.Expression):
